@@ -197,6 +197,33 @@ Definition hyp_delete_column (s : schema) (tn cn : string) : bool :=
            && forallb (constraint_avoids cn) (t_constraints t))%bool
       end)%bool.
 
+(* DeleteColumn of a string-enum column: DROP COLUMN, then DROP TYPE.  Outside K2 (no other column of the table uses
+   the enum name), K5 (the column takes nothing with it); afterwards no column of the database uses the type *)
+Definition hyp_delete_column_enum (s : schema) (tn cn : string) : bool :=
+  (nodup_str (map t_name s)
+   && forallb (fun x => (String.eqb (t_name x) tn || negb (existsb (fk_to tn (mem_str cn)) (t_constraints x)))%bool) s
+   && match find (fun x => String.eqb (t_name x) tn) s with
+      | None => false
+      | Some t =>
+          (has_column cn t
+           && match find (fun c => String.eqb (c_name c) cn) (t_columns t) with
+              | Some c =>
+                  match c_type c with
+                  | TEnum en vals =>
+                      let N := build_enum_type_name tn en in
+                      (negb (ev_is_integer vals)
+                       && negb (other_col_with_enum s tn cn en)
+                       && nodup_str (map fst (flat_map table_enums s))
+                       && negb (existsb (fun T => existsb (fun x => String.eqb (pc_type x) N) (pt_cols T))
+                                        (c_tables (catalog_of (step_schema s (DeleteColumn tn cn))))))%bool
+                  | _ => false
+                  end
+              | None => false
+              end
+           && nodup_str (map c_name (t_columns t))
+           && forallb (constraint_avoids cn) (t_constraints t))%bool
+      end)%bool.
+
 (* ---------- ModifyColumnNullable / Default / Type: one attribute of one column (non-enum paths) ---------- *)
 Definition the_column (s : schema) (tn cn : string) : option (table_def * column_def) :=
   match find (fun x => String.eqb (t_name x) tn) s with
@@ -242,6 +269,22 @@ Definition hyp_modify_default (s : schema) (tn cn : string) (d : option string) 
           end
       | None => false
       end)%bool.
+(* the same with the stored text characterised instead of compared: a default that is none of the spellings
+   convert_default_for_backend rewrites (helpers.rs:153-188) and carries no type cast is stored as written
+   (quoted when the column is an enum and the text needs quoting), and rendered the same way by the baseline *)
+Definition default_is_plain (x : string) : bool :=
+  let l := lower x in
+  (negb (String.eqb x "")
+   && negb (String.eqb l "gen_random_uuid()" || String.eqb l "uuid()" || String.eqb l "lower(hex(randomblob(16)))")
+   && negb (String.eqb l "current_timestamp()" || String.eqb l "now()" || String.eqb l "current_timestamp"
+            || String.eqb l "getdate()")
+   && opt_is_none (parse_pg_type_cast x))%bool.
+Definition hyp_modify_default_plain (s : schema) (tn cn : string) (x : string) : bool :=
+  (column_frame s tn cn && default_is_plain x
+   && match the_column s tn cn with
+      | Some (_, c) => negb (String.eqb (trim (normalize_enum_default (c_type c) x)) "")
+      | None => false
+      end)%bool.
 (* ALTER COLUMN .. TYPE between two non-enum types the engine model knows; the auto-increment status is unchanged *)
 Definition hyp_modify_type (s : schema) (tn cn : string) (ty : column_type) : bool :=
   (column_frame s tn cn
@@ -254,6 +297,106 @@ Definition hyp_modify_type (s : schema) (tn cn : string) (ty : column_type) : bo
               end
            && Bool.eqb (pc_autoinc (col_cat t (set_type ty c))) (pc_autoinc (col_cat t c)))%bool
       | None => false
+      end)%bool.
+
+(* ---------- ModifyColumnType where a string enum is involved ---------- *)
+(* no column other than tn.cn has the type named n *)
+Definition type_free (c : catalog) (tn cn n : string) : bool :=
+  forallb (fun T => forallb (fun x => ((String.eqb (pt_name T) tn && String.eqb (pc_name x) cn)
+                                       || negb (String.eqb (pc_type x) n))%bool) (pt_cols T)) (c_tables c).
+Definition labels_ok (l : list string) : bool :=
+  (forallb is_quoted_literal l && opt_is_none (first_dup l))%bool.
+(* the default of an enum-to-enum migration: dropped before, set again afterwards with the text
+   modify_column_type.rs renders; the replayed baseline renders it through build_sea_column_def *)
+Definition enum_default_ok (c : column_def) (ty : column_type) : bool :=
+  match c_default c with
+  | None => true
+  | Some d =>
+      let e := normalize_enum_default ty (default_to_sql d) in
+      (negb (String.eqb (trim e) "")
+       && dec_b (option_eq_dec string_dec) (column_default_text (set_type ty c)) (Some e))%bool
+  end.
+(* Outside K2 (shared enum), K3 (integer enum), K8 (case fold: the unquoted name resolves to itself).
+   plain -> enum: CREATE TYPE, ALTER TYPE;  enum -> plain: ALTER TYPE, DROP TYPE;
+   enum -> enum, other name: CREATE TYPE new, [DROP DEFAULT], ALTER TYPE USING, DROP TYPE old, [SET DEFAULT];
+   enum -> enum, same name, other values: CREATE TYPE n_new, [DROP DEFAULT], ALTER TYPE USING, DROP TYPE n,
+   RENAME n_new TO n, [SET DEFAULT] *)
+Definition hyp_modify_type_enum (s : schema) (tn cn : string) (ty : column_type) : bool :=
+  (column_frame s tn cn
+   && match the_column s tn cn with
+      | Some (t, c) =>
+          (nodup_str (map fst (flat_map table_enums s))
+           && negb (pc_autoinc (col_cat t c)) && negb (pc_autoinc (col_cat t (set_type ty c)))
+           && match c_type c, ty with
+              | TEnum on ov, TEnum nn nv =>
+                  let No := build_enum_type_name tn on in
+                  let Nn := build_enum_type_name tn nn in
+                  let Ln := enum_sql_values nv in
+                  (negb (ev_is_integer ov) && negb (ev_is_integer nv)
+                   && negb (other_col_with_enum s tn cn on)
+                   && type_free (catalog_of s) tn cn No
+                   && labels_ok Ln && enum_default_ok c ty
+                   && if String.eqb on nn then
+                        let T := No +++ "_new" in
+                        (negb (dec_b enum_values_eq_dec ov nv)
+                         && negb (String.eqb T No)
+                         && type_free (catalog_of s) tn cn T
+                         && negb (type_exists T (catalog_of s))
+                         && negb (has_table No s))%bool
+                      else
+                        (negb (other_col_with_enum s tn cn nn)
+                         && negb (String.eqb No Nn)
+                         && negb (type_exists Nn (catalog_of s)))%bool)%bool
+              | TEnum on ov, _ =>
+                  let No := build_enum_type_name tn on in
+                  (negb (ev_is_integer ov)
+                   && negb (other_col_with_enum s tn cn on)
+                   && type_free (catalog_of s) tn cn No
+                   && negb (String.eqb (cat_type tn ty) No)
+                   && match resolve_type (catalog_of s) (sea_type tn ty) with
+                      | Ok (x, false) => String.eqb x (cat_type tn ty)
+                      | _ => false
+                      end
+                   && dec_b (option_eq_dec string_dec) (column_default_text (set_type ty c)) (column_default_text c))%bool
+              | _, TEnum nn nv =>
+                  let Nn := build_enum_type_name tn nn in
+                  let Ln := enum_sql_values nv in
+                  (negb (ev_is_integer nv)
+                   && negb (other_col_with_enum s tn cn nn)
+                   && negb (type_exists Nn (catalog_of s))
+                   && labels_ok Ln
+                   && match resolve_type (with_enums (catalog_of s) [(Nn, Ln)]) (sea_type tn ty) with
+                      | Ok (x, false) => String.eqb x Nn
+                      | _ => false
+                      end
+                   && dec_b (option_eq_dec string_dec) (column_default_text (set_type ty c)) (column_default_text c))%bool
+              | _, _ => false
+              end)%bool
+      | None => false
+      end)%bool.
+
+(* ---------- RenameColumn, outside K7 (a derived name embeds the old column name) and K15 (foreign keys of other
+   tables are left behind): ALTER TABLE .. RENAME COLUMN renames the column in every constraint and index of the
+   table and keeps their names; apply.rs renames it in every column list of the table's constraints (the referenced
+   columns of a foreign key to ANOTHER table included) ---------- *)
+Definition rename_ok (tn a b : string) (k : table_constraint) : bool :=
+  match k with
+  | CPrimaryKey _ cols => negb (mem_str b cols)
+  | CUnique n cols | CIndex n cols => (negb (opt_is_none n) || negb (mem_str a cols))%bool
+  | CForeignKey n cols rt rcols _ _ =>
+      ((negb (opt_is_none n) || negb (mem_str a cols))
+       && (String.eqb rt tn || negb (mem_str a rcols)))%bool
+  | CCheck _ _ => true
+  end.
+Definition hyp_rename_column (s : schema) (tn a b : string) : bool :=
+  (nodup_str (map t_name s)
+   && forallb (fun x => (String.eqb (t_name x) tn || negb (existsb (fk_to tn (mem_str a)) (t_constraints x)))%bool) s
+   && match find (fun x => String.eqb (t_name x) tn) s with
+      | None => false
+      | Some t =>
+          (has_column a t && negb (has_column b t)
+           && nodup_str (map c_name (t_columns t))
+           && forallb (rename_ok tn a b) (t_constraints t))%bool
       end)%bool.
 
 (* ---------- CreateTable, outside K1 (CHECK), the enum classes, K10/K11 (name clashes), K17 (target not ready) ---------- *)
@@ -325,11 +468,12 @@ Definition sim_hyp (s : schema) (a : action) : bool :=
   | RemoveConstraint t k => hyp_remove_constraint s t k
   | DeleteTable t => hyp_delete_table s t
   | AddColumn t col fw => (hyp_add_column s t col fw || hyp_add_column_backfill s t col fw || hyp_add_column_enum s t col fw)%bool
-  | DeleteColumn t c => hyp_delete_column s t c
+  | DeleteColumn t c => (hyp_delete_column s t c || hyp_delete_column_enum s t c)%bool
   | CreateTable t cols ks => hyp_create_table s t cols ks
   | ModifyColumnNullable t c n _ => hyp_modify_nullable s t c n
   | ModifyColumnDefault t c d => hyp_modify_default s t c d
-  | ModifyColumnType t c ty _ => hyp_modify_type s t c ty
+  | ModifyColumnType t c ty _ => (hyp_modify_type s t c ty || hyp_modify_type_enum s t c ty)%bool
+  | RenameColumn t a b => hyp_rename_column s t a b
   | _ => false
   end.
 Fixpoint count_sim (s : schema) (acts : list action) : nat :=
